@@ -168,7 +168,16 @@ class Runner:
     """Line-oriented conversation with the extracted model."""
 
     def __init__(self, keep_samples=0, rng=None):
-        self.p = subprocess.Popen([str(BUILD / "runner")], stdin=subprocess.PIPE, stdout=subprocess.PIPE, bufsize=1 << 20)
+        def big_stack():
+            import resource
+            soft, hard = resource.getrlimit(resource.RLIMIT_STACK)
+            want = 1 << 30
+            if hard != resource.RLIM_INFINITY:
+                want = min(want, hard)
+            if soft != resource.RLIM_INFINITY and soft < want:
+                resource.setrlimit(resource.RLIMIT_STACK, (want, hard))
+        self.p = subprocess.Popen([str(BUILD / "runner")], stdin=subprocess.PIPE, stdout=subprocess.PIPE, bufsize=1 << 20,
+                                  preexec_fn=big_stack)
         self.calls = 0
         self.keep = keep_samples
         self.samples = []
